@@ -86,6 +86,7 @@ package peers
 
 //@ func (peerSet *PeerSet) initMaps()
 //@   requires peerSet != nil && len(peerSet.Peers) < 2147483648 && (forall i int :: 0 <= i && i < len(peerSet.Peers) ==> PeerOK(peerSet.Peers[i]))
+//@   requires[memo-empty] peerSet.superMajority == nil && peerSet.trustCount == nil && len(peerSet.hash) == 0
 //@   modifies peerSet.ByPubKey, peerSet.ByID
 //@   ensures[wf]    peerSet.WF()
 //@   ensures[fresh] __fresh(peerSet.ByPubKey) && __fresh(peerSet.ByID)
@@ -104,3 +105,22 @@ package peers
 //@   requires peerSet != nil
 //@   modifies nothing
 //@   ensures[def] ret1 == nil && __seqeq(ret0, PSHashOf(peerSet.Peers))
+
+// The index maps are (re)built only on a set whose memo cells are empty (initMaps/requires[memo-empty]): that is
+// what keeps the memoised thresholds valid for the maps they were computed from.
+
+//@ func (peerSet *PeerSet) WithNewPeer(peer *Peer) *PeerSet
+//@   requires peerSet != nil && peerSet.WF() && peer != nil && len(peerSet.Peers) < 2147483647
+//@   modifies nothing
+//@   ensures[fresh]  ret0 != nil && __fresh(ret0) && ret0.WF()
+//@   ensures[added]  len(ret0.Peers) >= len(peerSet.Peers) && len(ret0.Peers) <= len(peerSet.Peers) + 1 && (forall i int :: 0 <= i && i < len(peerSet.Peers) ==> ret0.Peers[i] == peerSet.Peers[i]) && (len(ret0.Peers) == len(peerSet.Peers) + 1 ==> ret0.Peers[len(peerSet.Peers)] == peer)
+//@   ensures[kept]   __eq(peerSet.Peers, old(peerSet.Peers))
+
+//@ func (peerSet *PeerSet) WithRemovedPeer(peer *Peer) *PeerSet
+//@   requires peerSet != nil && peerSet.WF() && peer != nil
+//@   modifies nothing
+//@   ensures[fresh]   ret0 != nil && __fresh(ret0) && ret0.WF()
+//@   ensures[removed] forall i int :: 0 <= i && i < len(ret0.Peers) ==> ret0.Peers[i].PubKeyHex != peer.PubKeyHex
+//@   ensures[subset]  len(ret0.Peers) <= len(peerSet.Peers)
+//@   ensures[kept]    __eq(peerSet.Peers, old(peerSet.Peers))
+//@   loop 1 invariant[filter] len(peers) <= __idx() && !(peers == nil) && (forall i int :: 0 <= i && i < len(peers) ==> peers[i] != nil && peers[i].PubKeyHex != peer.PubKeyHex)
